@@ -20,7 +20,8 @@ TARGETS = ('x86_64-sysv', 'aarch64', 'riscv64')
 
 
 ALLOC_LEAVES = ['g(@);', 'return @;', 'goto end;', 'L1: g(@);', 'goto L1;', 'die();', '{ T va; g(va[0]); }', '{ int vb[n]; g(vb[1]); }',
-                '{ int *cl = (int[]){@, n}; g(cl[0]); }', '{ T2 vc; g(vc[0][1]); }']
+                '{ int *cl = (int[]){@, n}; g(cl[0]); }', '{ T2 vc; g(vc[0][1]); }', '{ int vd[n]; L1: g(vd[0]); }', '{ T ve; L1: g(ve[1]); if (n--) goto L1; }',
+                'switch (v) { int vf[n]; case 3: g(vf[0]); }']
 
 
 def stmt_trees(maxnodes, leaves=None):
